@@ -21,6 +21,10 @@
   SEQEND   every visit_seq over an array access lends the access and reads the array to its end marker afterwards
            (fixed-length visitors stop early)                                                  (found F19)
   SHORTREAD no plain io::Read::read judged by its count outside forwarding Read implementations (shared with C11)
+  DURATION  the three duration fields name themselves by their spec word / spec position, and the key that goes with a
+            4-byte chunk is decided by what is left of the 12 bytes (12 months, 8 days, 4 milliseconds)
+  DECDECODE the unscaled integer is presented as an integer only at scale 0; the sign is the top bit of the first byte
+            and an empty mantissa is not negative; a big-decimal with bytes after its scale is refused
 It does NOT decide that the produced value is *the* value.
 """
 import re
